@@ -112,6 +112,9 @@ def oracle(job, tr):
                 short_seen = True
             if failed and r.get("err") != "1":
                 bad.append(("no-error-state", "failure reported but the resampler is not in the error state"))
+            if r.get("err") == "1" and not failed:
+                bad.append(("error-without-failure", "the resampler is in the error state although the input function never reported failure "
+                            "(%d frames supplied so far, %d delivered)" % (supplied, out)))
             if bad:
                 break
         elif l.startswith("H "):
@@ -146,6 +149,36 @@ def run(ctx):
         ctx.hist("dist_style", job["style"])
         ctx.hist("dist_max_ilen", job.get("maxilen"))
         ctx.count("frames_supplied", info.get("supplied", 0))
+    # ---- long start-up latency x tiny supplies: thousands of successive calls of the input function before the first output frame
+    #      exists (latency in input frames / frames per supply: 7000 single-frame calls for 8:1 at VHQ, 57000 for 64:1), each a short
+    #      non-zero supply that must be accepted; then the stream ends and must drain to round(n*orate/irate)
+    def slow_job(i):
+        rng = common.Rng(ctx.rng.next())
+        ir, k = rng.choice([(8, 1), (64, 1), (12, 1), (96000 / 8000.0, 1), (1000, 64), (30, 1), (5, 1), (3, 7)]) if i else (8, 1)
+        cfg = {"ir": repr(float(ir)), "or": "1", "recipe": rng.choice([6, 4, 7, 6 | 0x40]) if i else 6, "qflags": rng.choice([0, 0, 8])}
+        if ir == 1000: k = rng.choice([7, 64])
+        elif i: k = rng.choice([1, 1, 2, 7])
+        ratio = float(ir)
+        N = int(min(150000, max(30000, 2500 * ratio)))
+        return {"cfg": cfg, "env": {}, "N": N, "seed": rng.next() & 0xffffffff, "idx": i, "style": "limit", "clear_first": False,
+                "maxilen": rng.choice([0, 64, k]), "supply": k}
+
+    def slow_ops(job, plan):
+        rng = common.Rng(job["seed"])
+        est = int(job["N"] / cr.io_ratio(job["cfg"])) + 10
+        ol = rng.choice([256, 64, est, 1000])
+        ops = [cr.create_line(job["cfg"]), "limit %d" % job["N"], "setfn %d" % job["maxilen"]]
+        ops += ["pull %d d%d" % (ol, job["supply"])] * (est // ol + 6)
+        ops += ["pull 100 d%d" % job["supply"], "hash"]
+        return ops
+    res_slow = cr.sweep(ctx, PID, exe, [slow_job(i) for i in range(6 if ctx.quick else 150)], slow_ops, oracle, timeout=300)
+    for job, ops, tr, bad, info in res_slow:
+        ctx.hist("dist_style", "slow-start/supply=%d" % job["supply"])
+        ctx.count("frames_supplied", info.get("supplied", 0))
+        if tr.results:
+            calls = max((int(x.get("used", 0)) for x in tr.results), default=0) if isinstance(tr.results[0], dict) else 0
+            ctx.cov["max_input_fn_calls_in_one_soxr_output"] = max(ctx.cov.get("max_input_fn_calls_in_one_soxr_output", 0), calls)
+    res = res + res_slow
     # "everything supplied is consumed exactly once, in order": the delivered bytes of a stream that ended normally equal those of
     # soxr_oneshot-style processing of exactly the supplied frames (the harness' signal is a function of the stream position)
     refs = [(job, tr, info) for job, ops, tr, bad, info in res
